@@ -53,6 +53,29 @@ fn main() {
             let n = mhv::fuzzrt::write_corpus(&args[2], &PathBuf::from(&args[3]));
             println!("{} files", n);
         }
+        "corpus-any" => {
+            if args.len() < 4 {
+                usage();
+            }
+            let n = mhv::fuzzrt::write_corpus_any(args[2].parse().unwrap_or(300), &PathBuf::from(&args[3]));
+            println!("{} files", n);
+        }
+        "fuzzsubs" => {
+            // the PBT subs (choice-byte inputs) of a property with their input length bound
+            if args.len() < 3 {
+                usage();
+            }
+            let p = props.iter().find(|p| p.id == args[2]).unwrap_or_else(|| usage());
+            let mut seen: Vec<&str> = Vec::new();
+            for j in (p.plan)(Tier::Thorough) {
+                if let mhv::engine::JobKind::Pbt { max_len, .. } = j.kind {
+                    if !j.smallbuf && !seen.contains(&j.sub) && j.sub != "raw" {
+                        seen.push(j.sub);
+                        println!("{} {}", j.sub, max_len);
+                    }
+                }
+            }
+        }
         "replay" => {
             if args.len() < 3 {
                 usage();
